@@ -1,12 +1,13 @@
 (** * C09 — OverlayFS shows the upper-shadows-lower union (pinned statements).
-    partial: the resolution rule of the union view is proved for an overlay of two MemoryFS layers
-    and every pair of layer contents; that each mutating operation then obeys the contracts of C01
+    partial: the union view - resolution, existence, metadata, the bytes a reader gets, and the merged
+    listing of a directory - is proved for an overlay of two MemoryFS layers and every pair of layer
+    contents; that each mutating operation then obeys the contracts of C01
     relative to that union is decided by the contract oracle of the correspondence check (and by
     the theorems of C08 on where the writes go).  Known finding D15. *)
 From stdpp Require Import gmap list.
 From Coq Require Import NArith ZArith.
-From VFS Require Import Core.Types Core.Prog Core.Calls Base.MemFS Base.Store Layer.VfsPath Layer.Overlay
-  Proofs.OvlProofs.
+From VFS Require Import Core.Types Core.Prog Core.Calls Base.MemFS Base.Handles Base.Store Layer.VfsPath Layer.Overlay
+  Proofs.MemProofs Proofs.OvlProofs Proofs.OvlList.
 
 Notation mstate := (gmap (list (list N)) memfile).
 
@@ -30,6 +31,46 @@ Theorem C09_exists_is_union : forall hs lg ft (s0 s1 : mstate) p, p <> [] ->
 Proof. exact exists_rule. Qed.
 
 (** non-vacuity: a file present in both layers is served from the upper one *)
+(** metadata comes from the first layer that has the path *)
+Theorem C09_metadata_from_first_layer : forall hs lg ft (s0 s1 : mstate) p, p <> [] ->
+  run bhandler (ovl_metadata (v0, []) [(v1, [])] p) (mstore2 s0 s1 hs lg ft) =
+  (mstore2 s0 s1 hs lg ft,
+   if bool_decide (is_Some (s0 !! whiteout_path (v0, []) p)) then fail ENotFound
+   else match s0 !! p with
+        | Some f => Ok (mem_meta f)
+        | None => match s1 !! p with Some f => Ok (mem_meta f) | None => fail ENotFound end
+        end).
+Proof. exact metadata_rule. Qed.
+
+(** and so do the bytes: a reader opened through the overlay holds the content of the upper file if
+    there is one, else of the lower file *)
+Theorem C09_bytes_from_upper : forall hs lg ft (s0 s1 : mstate) p f, p <> [] ->
+  s0 !! whiteout_path (v0, []) p = None -> s0 !! p = Some f -> f_type f = File ->
+  run bhandler (ovl_impl (v0, []) [(v1, [])] (COpenFile p)) (mstore2 s0 s1 hs lg ft) =
+  (mstore2 (<[p := mkMemFile File (f_content f) (f_created f) (f_modified f) (Some TAuto)]> s0) s1
+           (hs ++ [HMemReader (f_content f) 0]) lg ft, Ok (length hs)).
+Proof. exact open_file_upper. Qed.
+Theorem C09_bytes_from_lower : forall hs lg ft (s0 s1 : mstate) p f, p <> [] ->
+  s0 !! whiteout_path (v0, []) p = None -> s0 !! p = None -> s1 !! p = Some f -> f_type f = File ->
+  run bhandler (ovl_impl (v0, []) [(v1, [])] (COpenFile p)) (mstore2 s0 s1 hs lg ft) =
+  (mstore2 s0 (<[p := mkMemFile File (f_content f) (f_created f) (f_modified f) (Some TAuto)]> s1)
+           (hs ++ [HMemReader (f_content f) 0]) lg ft, Ok (length hs)).
+Proof. exact open_file_lower. Qed.
+
+(** directories merge the children of all layers: the listing of a directory of the overlay holds
+    exactly the names that are children of it in a layer in which it is a directory, minus the names
+    whose deletion marker is present; listing changes neither layer *)
+Theorem C09_listing_merges_layers : forall hs lg ft (s0 s1 : mstate) (p : path),
+  parent_closed s0 -> p <> [] ->
+  s0 !! whiteout_path (v0, []) p = None ->
+  (is_dir s0 p \/ (s0 !! p = None /\ is_dir s1 p)) ->
+  (s0 !! (whiteout_name :: p) = None \/ is_dir s0 (whiteout_name :: p)) ->
+  exists l, run bhandler (ovl_read_dir (v0, []) [(v1, [])] p) (mstore2 s0 s1 hs lg ft) = (mstore2 s0 s1 hs lg ft, Ok l) /\
+    forall n, n ∈ l <->
+      ((is_dir s0 p /\ is_Some (s0 !! (p ++ [n]))) \/ (is_dir s1 p /\ is_Some (s1 !! (p ++ [n])))) /\
+      s0 !! whiteout_path (v0, []) (p ++ [n]) = None.
+Proof. exact read_dir_rule. Qed.
+
 Example C09_example :
   let f0 := mkMemFile File [1%N] TAuto None None in
   let f1 := mkMemFile File [2%N] TAuto None None in
@@ -44,3 +85,7 @@ Proof. vm_compute. repeat split; reflexivity. Qed.
 Print Assumptions C09_served_from_first_layer.
 Print Assumptions C09_exists_is_union.
 Print Assumptions C09_example.
+Print Assumptions C09_metadata_from_first_layer.
+Print Assumptions C09_bytes_from_upper.
+Print Assumptions C09_bytes_from_lower.
+Print Assumptions C09_listing_merges_layers.
